@@ -351,8 +351,18 @@ def check_queue_exhaustion(ctx, F):
     mask = _mask_in('mask_next_to_read')
     cw = ('in', (1, 'deref', ('f', 'current_word')))
     n = 0
+    def excludes_zero_mask(r):
+        # the path itself knows mask != 0 (e.g. after an early return for the consumed case): mask == 0 is infeasible on it
+        for t, v, _ in r.preds:
+            if t[0] == 'bin' and t[1] in ('Eq', 'Ne') and mask in (t[2], t[3]) and pow2._is_zero(t[3] if t[2] == mask else t[2]):
+                if (t[1] == 'Eq' and not v) or (t[1] == 'Ne' and v):
+                    return True
+        return False
     for r in paths or []:
         if r.end != 'return':
+            continue
+        if excludes_zero_mask(r):
+            n += 1
             continue
         for t, v, _ in r.preds:
             if not sym.contains(t, lambda x: x == mask):
